@@ -162,6 +162,75 @@ pub fn j_structured(toks: &[char], seps: &[usize], c: i128, variant: usize, out:
     j_total2(&fmt, &input, out);
 }
 
+/// the same clause through Format::parse (the strftime-style parser): calendar text closed by 'Z' or another trailing
+/// character, offsets, ordinal dates and ordinal dates with a time of day
+pub fn j_range_fmt(fam: usize, v: [i64; 6], out: &mut Local) {
+    use hifitime::efmt::consts::RFC3339;
+    let ylen = |y: i64| if crate::oracle::civil::is_leap(y) { 366 } else { 365 };
+    // (format, text, invalid, valid, which)
+    let (fmt, text, invalid, valid, which): (String, String, bool, bool, &str) = match fam {
+        0 | 1 | 2 => {
+            // v = [year, hour, minute, second, tail, _]: full calendar text with a trailing 'Z' / " UTC" / ';'
+            let (y, h, mi, sc) = (v[0], v[1], v[2], v[3]);
+            let tail = ["Z", " UTC", ";"][v[4] as usize];
+            let text = format!("{y:04}-02-13T{h:02}:{mi:02}:{sc:02}{tail}");
+            let inv = h > 24 || (h == 24 && (mi > 0 || sc > 0)) || mi > 59 || sc > 59;
+            let fmt = match fam {
+                0 => "RFC3339".to_string(),
+                1 => "%Y-%m-%dT%H:%M:%S".to_string(),
+                _ => "%Y-%m-%d %H:%M:%S".to_string(),
+            };
+            let text = if fam == 2 { text.replace('T', " ") } else { text };
+            (fmt, text, inv, !inv && h < 24, if h >= 24 { "hour" } else if mi > 59 { "minute" } else { "second" })
+        }
+        3 => {
+            // v = [offset hours, offset minutes, sign, ..]: RFC 3339 text with an offset
+            let (oh, om) = (v[0], v[1]);
+            let text = format!("2020-01-01T00:00:00.5{}{oh:02}:{om:02}", if v[2] == 0 { '+' } else { '-' });
+            let inv = oh > 23 || om > 59;
+            ("RFC3339".to_string(), text, inv, !inv, "offset")
+        }
+        4 => {
+            // v = [year, day of year]: ISO 8601 ordinal date
+            let (y, j) = (v[0], v[1]);
+            let inv = j < 1 || j > ylen(y);
+            ("%Y-%j".to_string(), format!("{y:04}-{j:03}"), inv, !inv, "day-of-year")
+        }
+        5 => {
+            // v = [year, tenths of a day of year]: fractional day of year
+            let (y, t) = (v[0], v[1]);
+            let inv = t < 10 || t >= (ylen(y) + 1) * 10;
+            ("%Y %J".to_string(), format!("{y:04} {}.{}", t.div_euclid(10), t.rem_euclid(10)), inv, false, "fractional-day-of-year")
+        }
+        _ => {
+            // v = [year, day of year, hour, minute, second]: ordinal date with a time of day (27 April / 31 December are
+            // not leap-second days in these years)
+            let (y, j, h, mi, sc) = (v[0], v[1], v[2], v[3], v[4]);
+            let inv = j < 1 || j > ylen(y) || h > 24 || (h == 24 && (mi > 0 || sc > 0)) || mi > 59 || sc > 59;
+            ("%Y-%jT%H:%M:%S".to_string(), format!("{y:04}-{j:03}T{h:02}:{mi:02}:{sc:02}"), inv, !inv && h < 24, if j < 1 || j > ylen(y) { "day-of-year" } else if h >= 24 { "hour" } else if mi > 59 { "minute" } else { "second-with-ordinal-date" })
+        }
+    };
+    let args: Vec<String> = std::iter::once(fam.to_string()).chain(v.iter().map(|x| x.to_string())).collect();
+    let r = guard(|| if fmt == "RFC3339" { RFC3339.parse(&text).is_ok() } else { Epoch::from_format_str(&text, &fmt).is_ok() });
+    let fam_name = ["rfc3339-with-trailing-character", "custom-format-with-trailing-character", "custom-format-with-trailing-character", "rfc3339-offset", "ordinal", "fractional-ordinal", "ordinal-with-time"][fam];
+    match r {
+        Ok(acc) => {
+            if invalid && acc {
+                out.viol("c13.range_fmt", format!("out-of-range-accepted,{fam_name},{which}"), args, format!("Err for {text:?} with {fmt:?}"), "Ok".into());
+            } else if valid && !acc && fam >= 3 {
+                // (a trailing character after a complete date-time is not "well-formed" text for the custom formats)
+                out.viol("c13.range_fmt", format!("valid-rejected,{fam_name}"), args, format!("Ok for {text:?} with {fmt:?}"), "Err".into());
+            } else {
+                out.ok(1, invalid, fam as u64 * 4 + invalid as u64 + 2 * acc as u64);
+                if out.want_sample(invalid) {
+                    out.sample("c13.range_fmt", args, format!("{text:?} with {fmt:?}: {}", if acc { "Ok" } else { "Err" }), invalid);
+                }
+            }
+        }
+        Err(pn) => out.viol("c13.range_fmt", format!("panic:{},{fam_name}", pn.class()), args, "Ok or Err".into(), format!("panic at {}: {}", pn.loc, pn.msg)),
+    }
+}
+
 // ---------------------------------------------------------------------------------------------
 // string lattices
 
@@ -467,6 +536,41 @@ pub fn run(rep: &mut Report) {
     let dims = [5usize, years.len(), months.len(), days.len(), hours.len(), mins.len(), secs.len()];
     let total: u64 = dims.iter().map(|d| *d as u64).product();
     rep.bound("range_product", format!("{dims:?} = {total}"));
+    // the same clause through Format::parse
+    let mut rf: Vec<(usize, [i64; 6])> = vec![];
+    for fam in 0..3usize {
+        for y in [2018i64, 2024] {
+            for h in [0i64, 23, 24, 25, 99] {
+                for mi in [0i64, 59, 60, 99] {
+                    for sc in [0i64, 32, 59, 60, 61, 99] {
+                        for tail in 0..3i64 {
+                            rf.push((fam, [y, h, mi, sc, tail, 0]));
+                        }
+                    }
+                }
+            }
+        }
+    }
+    for oh in [0i64, 1, 12, 23, 24, 25, 99] {
+        for om in [0i64, 30, 59, 60, 61, 99] {
+            for sg in 0..2i64 {
+                rf.push((3, [oh, om, sg, 0, 0, 0]));
+            }
+        }
+    }
+    for y in [1900i64, 2000, 2023, 2024, 2100] {
+        for j in [0i64, 1, 59, 60, 365, 366, 367, 400, 999] {
+            rf.push((4, [y, j, 0, 0, 0, 0]));
+            for (h, mi, sc) in [(0i64, 0i64, 0i64), (12, 55, 60), (23, 59, 59), (23, 59, 60), (24, 0, 0), (25, 0, 0), (12, 60, 0), (12, 0, 61)] {
+                rf.push((6, [y, j, h, mi, sc, 0]));
+            }
+        }
+        for t in [-5i64, 0, 5, 9, 10, 15, 3650, 3655, 3659, 3660, 3665, 3669, 3670, 4000, 99_999] {
+            rf.push((5, [y, t, 0, 0, 0, 0]));
+        }
+    }
+    rep.bound("range_through_format_parse", rf.len() as u64);
+    crate::engine::sweep(rep, "c13.range_fmt", rf.len() as u64, |i, out| j_range_fmt(rf[i as usize].0, rf[i as usize].1, out));
     crate::engine::sweep(rep, "c13.range", total, |i, out| {
         let mut r = i;
         let mut idx = [0usize; 7];
@@ -482,6 +586,13 @@ pub fn replay(check: &str, a: &[String], out: &mut Local) -> bool {
     match check {
         "c13.total" => j_total(a[0].parse().unwrap(), &a[1], out),
         "c13.total2" => j_total2(&a[0], &a[1], out),
+        "c13.range_fmt" => {
+            let mut v = [0i64; 6];
+            for k in 0..6 {
+                v[k] = a[k + 1].parse().unwrap();
+            }
+            j_range_fmt(a[0].parse().unwrap(), v, out)
+        }
         "c13.range" => j_range(a[0].parse().unwrap(), a[1].parse().unwrap(), a[2].parse().unwrap(), a[3].parse().unwrap(), a[4].parse().unwrap(), a[5].parse().unwrap(), a[6].parse().unwrap(), out),
         _ => return false,
     }
